@@ -20,7 +20,8 @@ from concurrent.futures import ThreadPoolExecutor
 from harness import tlc
 from harness.common import MachineryFailure, run_workers
 
-NAMES = {"AE": "AssertionError", "RE": "RuntimeError"}
+NAMES = {"AE": "AssertionError", "RE": "RuntimeError", "TE": "TypeError", "VE": "ValueError", "AT": "AttributeError",
+         "IE": "IndexError"}
 SHORT = {v: k for k, v in NAMES.items()}
 MAX_EVENTS = 300
 FEATURES = ("loop-else-jump", "with-multi", "with-enter-raises", "base-exc", "as-rebind")
@@ -59,8 +60,30 @@ def TRY(body, handlers=(), orelse=(), final=()):
     return {"k": "try", "body": list(body), "handlers": list(handlers), "orelse": list(orelse), "final": list(final)}
 
 
-def ITEM(sup=False, er="", xr="", q=False):
-    return {"sup": sup, "er": er, "xr": xr, "q": q}
+def ITEM(sup=False, er="", xr="", q=False, tg="", ev="self", sx=""):
+    """One with-item: manager CM(n, sup, er, xr, q, ev) [as TARGET].  ev = what __enter__ returns (self, int, t0..t3 =
+    tuple of 0..3 ints), tg = form of the `as` target (see AS_TARGETS), sx = exception the holder's store raises."""
+    return {"sup": sup, "er": er, "xr": xr, "q": q, "tg": tg, "ev": ev, "sx": sx}
+
+
+ITEM_DEFAULTS = {"tg": "", "ev": "self", "sx": ""}      # items of older stored cases (witnesses, replay files)
+AS_TARGETS = {                                          # target form -> (source of the target, variables it binds)
+    "name": ("v{n}", ["v{n}"]),
+    "tup": ("(v{n}a, v{n}b)", ["v{n}a", "v{n}b"]),
+    "lst": ("[v{n}a, v{n}b]", ["v{n}a", "v{n}b"]),
+    "star": ("(v{n}a, *v{n}b)", ["v{n}a", "v{n}b"]),
+    "tupst": ("(v{n}a, hold({n}, {sx!r}).x)", ["v{n}a"]),
+    "attr": ("hold({n}, {sx!r}).x", []),
+    "sub": ("hold({n}, {sx!r})[0]", []),
+    "slot": ("SL.x", []),                               # SL has no attribute x and no __dict__: AttributeError
+    "idx": ("LST[5]", []),                              # LST is an empty list: IndexError
+}
+# (target form, value of __enter__, exception of the holder's store): bindings that succeed / that raise
+AS_OK = [("name", "self", ""), ("name", "t2", ""), ("tup", "t2", ""), ("lst", "t2", ""), ("star", "t3", ""), ("star", "t1", ""),
+         ("attr", "self", ""), ("sub", "int", ""), ("tupst", "t2", "")]
+AS_FAIL = [("tup", "self", ""), ("tup", "int", ""), ("tup", "t3", ""), ("tup", "t1", ""), ("lst", "t3", ""), ("lst", "int", ""),
+           ("star", "t0", ""), ("star", "self", ""), ("attr", "self", "E1"), ("attr", "t2", "E3"), ("sub", "self", "E1"),
+           ("sub", "int", "E2"), ("tupst", "t2", "E1"), ("tupst", "t3", "E1"), ("slot", "self", ""), ("idx", "int", "")]
 
 
 def WITH(items, body):
@@ -177,9 +200,24 @@ def render(s, ind, out):
             out.append(p + "finally:")
             render_block(s["final"], ind + 4, out)
     elif k == "with":
-        items = ", ".join("CM(%d, %r, %r, %r, %r)" % (m["n"], m["sup"], m["er"], m["xr"], m["q"]) for m in s["items"])
-        out.append("%swith %s:" % (p, items))
-        render_block(s["body"], ind + 4, out)
+        items, bound = [], []
+        for m in s["items"]:
+            m = dict(ITEM_DEFAULTS, **m)
+            src = "CM(%d, %r, %r, %r, %r%s)" % (m["n"], m["sup"], m["er"], m["xr"], m["q"],
+                                               ", %r" % m["ev"] if m["tg"] or m["ev"] != "self" else "")
+            if m["tg"]:
+                target, names = AS_TARGETS[m["tg"]]
+                src += " as " + target.format(n=m["n"], sx=m["sx"])
+                if names:           # what the target's variables hold is logged when the body starts
+                    bound.append("%s    tb(%d, %s)" % (p, m["n"], ", ".join(x.format(n=m["n"]) for x in names)))
+            items.append(src)
+        out.append("%swith %s:" % (p, ", ".join(items)))
+        out.extend(bound)
+        if bound:
+            for s2 in s["body"]:
+                render(s2, ind + 4, out)
+        else:
+            render_block(s["body"], ind + 4, out)
     else:
         raise ValueError(k)
 
@@ -229,7 +267,7 @@ def features(funcs):
                 for m in s["items"]:
                     if m["er"]:
                         fs.add("with-enter-raises")
-                    if "B1" in (m["er"], m["xr"]):
+                    if "B1" in (m["er"], m["xr"], m.get("sx", "")):
                         fs.add("base-exc")
                 blk(s["body"], le, bound)
 
@@ -304,6 +342,21 @@ def d1(inloop, ret=True):
     for sup in (False, True):
         yield WITH([ITEM(sup, er="E1")], [T()]), []
         yield WITH([ITEM(sup, q=True), ITEM(sup, er="E1", q=True)], [T()]), []
+    # `with ... as TARGET`: every target form, bindings that succeed (every leaf in the body) and bindings that raise
+    # (unpack mismatch, raising attribute / subscript store, missing attribute, index error), in the only / the first /
+    # the second item, with every suppression combination
+    for tg, ev, sx in AS_OK:
+        for b in L:
+            for sup in (False, True):
+                yield WITH([ITEM(sup, tg=tg, ev=ev, sx=sx)], b), []
+        yield WITH([ITEM(False, tg=tg, ev=ev, sx=sx), ITEM(True, tg="name", ev="int")], [RAISE("E1")]), []
+    for tg, ev, sx in AS_FAIL:
+        for sup in (False, True):
+            yield WITH([ITEM(sup, tg=tg, ev=ev, sx=sx)], [T()]), []
+            yield WITH([ITEM(sup, xr="E3", tg=tg, ev=ev, sx=sx)], [T()]), []
+        for sup, sup2 in itertools.product((False, True), repeat=2):
+            yield WITH([ITEM(sup, tg="name"), ITEM(sup2, tg=tg, ev=ev, sx=sx)], [T()]), []
+            yield WITH([ITEM(sup, tg=tg, ev=ev, sx=sx), ITEM(sup2)], [T()]), []
     for b in leaves(False, True):
         yield CALL(2), [b]
 
@@ -329,6 +382,7 @@ def holes(inloop, ret=True):
     yield (lambda h: (WITH([ITEM(True)], h), [])), inloop, ret
     yield (lambda h: (WITH([ITEM(False, q=True), ITEM(True, q=True)], h), [])), inloop, ret
     yield (lambda h: (CALL(2), [h])), False, True
+    yield (lambda h: (WITH([ITEM(False, tg="star", ev="t3")], h), [])), inloop, ret
 
 
 def shift_calls(stmt, by):
@@ -481,7 +535,12 @@ class Gen:
             for _ in range(2 if multi else 1):
                 er = r.choice(["", "", "", "E1", "E3"]) if self.feat["with-enter-raises"] else ""
                 xr = r.choice(["", "", "", "", "E3", "E2"])
-                items.append(ITEM(r.random() < 0.4, er, xr, q if multi else False))
+                tg, ev, sx = "", "self", ""
+                if r.random() < 0.45:
+                    tg = r.choice(list(AS_TARGETS))
+                    ev = r.choice(["self", "int", "t0", "t1", "t2", "t2", "t2", "t3"])
+                    sx = r.choice(["", "", "E1", "E2", "E3", "B1" if self.feat["base-exc"] else "E3"])
+                items.append(ITEM(r.random() < 0.4, er, xr, q if multi else False, tg, ev, sx))
             return WITH(items, sub())
 
 
@@ -520,8 +579,8 @@ class Env:
         self.classes = {"E1": E1, "E2": E2, "E3": E3, "B1": B1}
 
         class CM:
-            def __init__(s, n, sup, er, xr, q):
-                s.n, s.sup, s.er, s.xr = n, sup, er, xr
+            def __init__(s, n, sup, er, xr, q, ev="self"):
+                s.n, s.sup, s.er, s.xr, s.ev = n, sup, er, xr, ev
                 if not q:
                     env.log.append({"e": "mk", "n": n})
 
@@ -529,7 +588,9 @@ class Env:
                 env.log.append({"e": "enter", "n": s.n})
                 if s.er:
                     raise env.classes[s.er](s.n)
-                return s
+                if s.ev == "self":
+                    return s
+                return s.n if s.ev == "int" else tuple(range(s.n, s.n + int(s.ev[1])))
 
             def __exit__(s, et, ev, tb):
                 if et is None:
@@ -557,8 +618,33 @@ class Env:
                 s.left -= 1
                 return s.left
 
+        class Hold:
+            """Recording target of `with ... as hold(n, sx).x` / `as hold(n, sx)[0]`: logs the store, then raises sx."""
+            __slots__ = ("n", "sx")
+
+            def __init__(s, n, sx):
+                object.__setattr__(s, "n", n)
+                object.__setattr__(s, "sx", sx)
+
+            def _store(s, v):
+                env.log.append({"e": "st", "n": s.n, "bv": env.flat(v)})
+                if s.sx:
+                    raise env.classes[s.sx](s.n)
+
+            def __setattr__(s, name, v):
+                s._store(v)
+
+            def __setitem__(s, key, v):
+                s._store(v)
+
+        class Slots:
+            __slots__ = ()
+
         self.CM = CM
         self.It = It
+        self.Hold = Hold
+        self.SL = Slots()
+        self.LST = []
 
     @staticmethod
     def name(et):
@@ -568,6 +654,21 @@ class Env:
     def site(ev):
         a = getattr(ev, "args", ())
         return a[0] if a and isinstance(a[0], int) and not isinstance(a[0], bool) else 0
+
+    def flat(self, v):
+        """A bound value as a flat list of ints: manager -> its number, int -> itself, tuple/list -> its elements."""
+        if isinstance(v, self.CM):
+            return [v.n]
+        if isinstance(v, bool) or v is None:
+            return [0]
+        if isinstance(v, int):
+            return [v]
+        if isinstance(v, (tuple, list)):
+            return [x for e in v for x in self.flat(e)]
+        return [0]
+
+    def tb(self, n, *vs):
+        self.log.append({"e": "b", "n": n, "vs": [self.flat(v) for v in vs]})
 
     def t(self, n):
         self.log.append({"e": "t", "n": n})
@@ -586,7 +687,8 @@ class Env:
         self.log.append({"e": "x", "n": n, "x": self.name(type(ex)), "s": self.site(ex)})
 
     def globals(self):
-        g = {"t": self.t, "c": self.c, "r": self.r, "tx": self.tx, "CM": self.CM, "It": self.It}
+        g = {"t": self.t, "c": self.c, "r": self.r, "tx": self.tx, "CM": self.CM, "It": self.It,
+             "tb": self.tb, "hold": self.Hold, "SL": self.SL, "LST": self.LST}
         g.update(self.classes)
         return g
 
@@ -705,7 +807,7 @@ def work(job):
             files.append([path, len(cases)])
             del cases[:]
 
-    cases, stats = [], {"programs": 0, "runs": 0, "events": 0, "same": 0, "differ": 0, "syntax": 0, "toolong": 0,
+    cases, stats = [], {"programs": 0, "runs": 0, "events": 0, "same": 0, "differ": 0, "syntax": 0, "toolong": 0, "bindfail": 0,
                         "shapes": set(), "nontrivial": set(), "depth": {}, "outcomes": {}, "feat": {}, "ev": {}}
 
     async def main(loop):
@@ -750,6 +852,7 @@ def work(job):
                     for ev in clog:
                         key = ev["e"] if ev["e"] != "end" else "end-" + (ev["k"] if ev["k"] == "value" else ev["x"])
                         stats["ev"][key] = stats["ev"].get(key, 0) + 1
+                    stats["bindfail"] += len(bind_failures(clog))
                     if len(clog) > 2:
                         stats["nontrivial"].add(hashlib.md5((sh + repr(orc[:sum(1 for e in clog if e["e"] == "c")])).encode()).hexdigest()[:12])
                     base = {"funcs": tfuncs, "pid": pid, "top": top, "oracle": orc, "feat": feat}
@@ -779,6 +882,19 @@ def work(job):
     return stats
 
 
+def bind_failures(trace):
+    """Positions of the __exit__ calls that receive the exception of a failed `as` target binding (recognised in the
+    recording: the exit of manager n directly after its enter / its target's store, with an exception; unpack and
+    native store errors by their class - a body whose first statement raises silently looks the same otherwise)."""
+    out = []
+    for i in range(1, len(trace)):
+        e, p = trace[i], trace[i - 1]
+        if e["e"] == "exit" and e["x"] != "None" and p.get("n") == e["n"] and (
+                p["e"] == "st" or (p["e"] == "enter" and e["x"] in ("TE", "VE", "AT", "IE"))):
+            out.append(i)
+    return out
+
+
 def tla_funcs(funcs):
     """The program as the acceptor reads it (renderer-only fields removed)."""
     def st(s):
@@ -794,7 +910,8 @@ def tla_funcs(funcs):
             o["handlers"] = [{"types": h["types"], "bind": h["bind"], "name": h["name"], "n": h["n"], "body": [st(x) for x in h["body"]]}
                              for h in s["handlers"]]
         if k == "with":
-            o["items"] = [{"n": m["n"], "sup": m["sup"], "er": m["er"], "xr": m["xr"], "q": m["q"]} for m in s["items"]]
+            o["items"] = [{key: dict(ITEM_DEFAULTS, **m)[key] for key in ("n", "sup", "er", "xr", "q", "ev", "tg", "sx")}
+                          for m in s["items"]]
         return o
     return [[st(s) for s in f] for f in funcs]
 
@@ -983,6 +1100,29 @@ def selftest(ctx, paths, rejects):
             t2 = copy.deepcopy(tr)
             t2[i]["x"] = "None" if t2[i]["x"] != "None" else "E1"
             bad.append(dict(c, id="corrupt-exit/%s" % c["id"], trace=t2))
+    # 5.-8. `with ... as TARGET`: the exit after a failed binding is missing (the binding moved out of the protected
+    # region) / gets no exception; the value stored / the values bound are different
+    n_as = 0
+    for c in good:
+        tr = c["trace"]
+        bf = bind_failures(tr)
+        new = []
+        if bf:
+            i = rnd.choice(bf)
+            new.append(dict(c, id="corrupt-bindexit-missing/%s" % c["id"], trace=tr[:i] + tr[i + 1:]))
+            t2 = copy.deepcopy(tr)
+            t2[i]["x"], t2[i]["s"] = "None", 0
+            new.append(dict(c, id="corrupt-bindexit-noexc/%s" % c["id"], trace=t2))
+        for kind, field in (("st", "bv"), ("b", "vs")):
+            idx = [i for i, e in enumerate(tr) if e["e"] == kind]
+            if idx:
+                i = rnd.choice(idx)
+                t2 = copy.deepcopy(tr)
+                t2[i][field] = t2[i][field] + ([7] if kind == "st" else [[7]])
+                new.append(dict(c, id="corrupt-%s/%s" % (kind, c["id"]), trace=t2))
+        if new and n_as < 120:
+            n_as += 1
+            bad += new
     if len(bad) < 50:
         raise MachineryFailure("selftest: too few accepted recordings to corrupt (%d)" % len(bad))
     kinds = {}
@@ -990,6 +1130,9 @@ def selftest(ctx, paths, rejects):
         k = c["id"].split("/")[0]
         kinds[k] = kinds.get(k, 0) + 1
     ctx.cov["selftest_corruption_kinds"] = kinds
+    for k in ("corrupt-bindexit-missing", "corrupt-bindexit-noexc", "corrupt-st", "corrupt-b"):
+        if kinds.get(k, 0) < 10:
+            raise MachineryFailure("selftest: too few recordings with an `as` target binding to corrupt (%s)" % kinds)
     path = os.path.join(ctx.scratch, "c02_corrupt.json")
     json.dump(bad, open(path, "w"))
     res = tlc.accept_batch("PyFlow", path, ctx.scratch, cfg="PyFlow.cfg", workers=min(CHAINS, NPROC), env={"JAVA_TOOL_OPTIONS": JVM})
@@ -1039,14 +1182,16 @@ def model_check_finish(ctx, futs):
         ctx.add_tlc(res, "PyFlowMC(%s)" % label)
         ctx.cov["mc_programs_x_oracles"] = ctx.cov.get("mc_programs_x_oracles", 0) + res.distinct
     ctx.cov["witness_assumptions_checked"] = ["FinallyAfterRaise", "Suppressed", "BreakSkipsElse", "ReturnThroughCall",
-                                              "FinallyOverrides", "EnterFails"]
-    ctx.cov["mc_theorems"] = ["WellFormed", "RunsAreTotal(AllClosed)", "FinallyExactlyOnce", "ExitPairsEnterLIFO", "ElseIffNoBreak",
+                                              "FinallyOverrides", "EnterFails", "BindFails", "BindFailSwallowed",
+                                              "BindFailOuterSeesNone", "BindFailPropagates", "BoundObserved", "StoreObserved"]
+    ctx.cov["mc_theorems"] = ["WellFormed", "RunsAreTotal(AllClosed)", "FinallyExactlyOnce", "ExitPairsEnterLIFO",
+                              "BindFailureIsProtected", "ElseIffNoBreak",
                               "JumpsStayInFunction", "SelfAccept"]
 
 
 # ------------------------------------------------------------------------------ main
 def merge_stats(ctx, results):
-    tot = {"programs": 0, "runs": 0, "events": 0, "same": 0, "differ": 0, "syntax": 0, "toolong": 0, "cases": 0}
+    tot = {"programs": 0, "runs": 0, "events": 0, "same": 0, "differ": 0, "syntax": 0, "toolong": 0, "cases": 0, "bindfail": 0}
     shapes, nontrivial, depth, feat, ev = set(), set(), {}, {}, {}
     for r in results:
         for k in tot:
@@ -1122,7 +1267,8 @@ def main(ctx):
         "evaluations": tot["runs"], "distinct_nontrivial": len(nontrivial), "distinct_skeletons": len(shapes),
         "rule": ("programs = bounded-exhaustive family of nesting 1 (all), nesting 2 (all in thorough, seeded 3% sample in quick) "
                  "and a seeded sample of nesting 3, over {if, while, for (+else), try-except / try-finally / "
-                 "try-except-else-finally, with 1-2 managers, call} x every placement of {fall-through, raise E1/E3, bare raise, "
+                 "try-except-else-finally, with 1-2 managers (with and without `as` targets: name, tuple, list, starred, "
+                 "attribute, subscript; bindings that succeed and that raise), call} x every placement of {fall-through, raise E1/E3, bare raise, "
                  "assert, return, break, continue} in every slot x 3 contexts (function, loop body, module) x all oracle paths "
                  "of <= 4 decisions, plus random programs of depth <= 6 (1-3 functions, 2 random oracle vectors each); "
                  "evaluation = one (program, oracle) run under both interpreters; non-trivial = CPython's recording has more "
@@ -1131,8 +1277,9 @@ def main(ctx):
         "masked_space_programs": feat.get("(masked)", 0),
         "unmasked_space_programs": tot["programs"] - feat.get("(masked)", 0),
     })
-    need = {"exit": 100, "x": 20, "r": 50, "nx": 100, "c": 500}
-    if scale >= 1 and (tot["programs"] < 5000 or any(ev.get(k, 0) < v for k, v in need.items())):
+    ctx.cov["with_as_target_binding_failures_observed"] = tot["bindfail"]
+    need = {"exit": 100, "x": 20, "r": 50, "nx": 100, "c": 500, "st": 100, "b": 100}
+    if scale >= 1 and (tot["programs"] < 5000 or tot["bindfail"] < 100 or any(ev.get(k, 0) < v for k, v in need.items())):
         raise MachineryFailure("vacuous coverage: %s %s" % (tot, ev))
     selftest(ctx, kept, rejects)
     for path in kept:
@@ -1141,6 +1288,7 @@ def main(ctx):
     ctx.assumptions += [
         "exception identity is observed as (class, raise-site number, class of __cause__); __context__ and traceback contents are not compared",
         "context managers, iterators and exception classes are native Python objects handed to the interpreter (pyscript-defined classes are C03's business)",
+        "`with ... as TARGET`: the value of __enter__ is an int / tuple of ints / the manager; a binding raises by unpack mismatch (TypeError, ValueError), by a recording holder's attribute/subscript store raising E1/E2/E3/B1, by a missing attribute or a list index out of range; what is compared is when and with which exception __exit__ runs, the stored value and the values of the bound variables at the start of the body",
         "conditions are oracle calls c(n): truth-testing of arbitrary objects is C01's business",
         "only programs CPython's compiler accepts are generated (break/continue/return placement errors are excluded by the property's quantifier)",
         "async with / async for / except* / match / generators are outside the statement",
